@@ -1,0 +1,254 @@
+//! Simulation seams, compiled only with the cargo feature `verif-hooks`.
+//!
+//! A verification harness implements [`Env`] and attaches it to the thread that
+//! creates a `ServiceDaemon` (see [`attach`]). The daemon thread spawned from there
+//! adopts the same `Env`; from then on its clock, randomness, interface table,
+//! socket I/O and the blocking in `poll` are answered by the `Env`.
+//!
+//! Without an attached `Env` every hook falls through to the normal behaviour.
+
+use ::if_addrs::Interface;
+use socket2::SockAddr;
+use socket_pktinfo::{PktInfo, PktInfoUdpSocket};
+use std::{
+    cell::RefCell,
+    collections::HashMap,
+    io,
+    net::{Ipv4Addr, Ipv6Addr, SocketAddr},
+    ops::Deref,
+    sync::{Arc, Mutex},
+    time::Duration,
+};
+
+/// What the daemon would otherwise ask the operating system.
+pub trait Env: Send + Sync + 'static {
+    /// Called once on the daemon thread, before it creates any state.
+    fn thread_start(&self);
+    /// Called when the daemon thread ends (normally or by a panic).
+    fn thread_exit(&self, panicking: bool);
+    /// Milliseconds since the UNIX epoch.
+    fn now_millis(&self) -> u64;
+    /// A random number in `lo..hi_excl`.
+    fn rand_u64(&self, lo: u64, hi_excl: u64) -> u64;
+    /// The interface table of the host.
+    fn get_if_addrs(&self) -> io::Result<Vec<Interface>>;
+    /// Replaces the blocking part of `poll(timeout)`.
+    fn park(&self, timeout: Option<Duration>);
+    /// Socket keys (4 / 6) that are readable after a wake-up, in drain order.
+    fn ready_keys(&self) -> Vec<usize>;
+    /// Replaces the UDP signal that wakes the daemon for a command.
+    fn signal(&self);
+    /// A named point where the harness may interleave other threads.
+    fn yield_point(&self, site: &'static str);
+    /// A mDNS socket of the given family is being opened.
+    fn socket_open(&self, is_v4: bool) -> io::Result<()>;
+    fn join_v4(&self, group: &Ipv4Addr, intf: &Ipv4Addr) -> io::Result<()>;
+    fn join_v6(&self, group: &Ipv6Addr, if_index: u32) -> io::Result<()>;
+    fn set_mcast_if_v4(&self, intf: &Ipv4Addr) -> io::Result<()>;
+    fn set_mcast_if_v6(&self, if_index: u32) -> io::Result<()>;
+    fn send_to(&self, is_v4: bool, buf: &[u8], dest: SocketAddr) -> io::Result<usize>;
+    fn recv(&self, is_v4: bool, buf: &mut [u8]) -> io::Result<(usize, PktInfo)>;
+}
+
+thread_local! {
+    static ENV: RefCell<Option<Arc<dyn Env>>> = const { RefCell::new(None) };
+}
+
+type Registry = Mutex<Option<HashMap<SocketAddr, Arc<dyn Env>>>>;
+static REGISTRY: Registry = Mutex::new(None);
+
+/// Attaches `env` to the current thread (or detaches with `None`).
+pub fn attach(env: Option<Arc<dyn Env>>) {
+    ENV.with(|e| *e.borrow_mut() = env);
+}
+
+fn cur() -> Option<Arc<dyn Env>> {
+    ENV.with(|e| e.borrow().clone())
+}
+
+pub(crate) fn now() -> Option<u64> {
+    cur().map(|e| e.now_millis())
+}
+
+/// Remembers which `Env` the daemon identified by `signal_addr` belongs to.
+pub(crate) fn register_daemon(signal_addr: SocketAddr) {
+    if let Some(env) = cur() {
+        let mut reg = REGISTRY.lock().unwrap_or_else(|e| e.into_inner());
+        reg.get_or_insert_with(HashMap::new).insert(signal_addr, env);
+    }
+}
+
+fn lookup(signal_addr: &SocketAddr) -> Option<Arc<dyn Env>> {
+    let reg = REGISTRY.lock().unwrap_or_else(|e| e.into_inner());
+    reg.as_ref().and_then(|m| m.get(signal_addr).cloned())
+}
+
+/// Reports the end of the daemon thread to its `Env`.
+pub(crate) struct ExitGuard(Option<(SocketAddr, Arc<dyn Env>)>);
+
+impl Drop for ExitGuard {
+    fn drop(&mut self) {
+        if let Some((addr, env)) = self.0.take() {
+            {
+                let mut reg = REGISTRY.lock().unwrap_or_else(|e| e.into_inner());
+                if let Some(m) = reg.as_mut() {
+                    if m.get(&addr).is_some_and(|e| Arc::ptr_eq(e, &env)) {
+                        m.remove(&addr);
+                    }
+                }
+            }
+            attach(None);
+            env.thread_exit(std::thread::panicking());
+        }
+    }
+}
+
+/// Called first thing on the daemon thread.
+pub(crate) fn adopt_daemon(signal_addr: &SocketAddr) -> ExitGuard {
+    match lookup(signal_addr) {
+        Some(env) => {
+            attach(Some(env.clone()));
+            env.thread_start();
+            ExitGuard(Some((*signal_addr, env)))
+        }
+        None => ExitGuard(None),
+    }
+}
+
+/// Returns true if the wake-up signal was taken over by an `Env`.
+pub(crate) fn signal(signal_addr: &SocketAddr) -> bool {
+    match lookup(signal_addr) {
+        Some(env) => {
+            env.signal();
+            true
+        }
+        None => false,
+    }
+}
+
+/// Parks the daemon thread in the `Env`; the real poll then runs with zero timeout.
+pub(crate) fn gate(timeout: Option<Duration>) -> Option<Duration> {
+    match cur() {
+        Some(env) => {
+            env.park(timeout);
+            Some(Duration::ZERO)
+        }
+        None => timeout,
+    }
+}
+
+pub(crate) fn ready_keys() -> Vec<usize> {
+    cur().map(|e| e.ready_keys()).unwrap_or_default()
+}
+
+pub(crate) fn yield_point(site: &'static str) {
+    if let Some(env) = cur() {
+        env.yield_point(site);
+    }
+}
+
+/// Returns Ok(true) if the socket is simulated and must stay unbound.
+pub(crate) fn socket_open(is_v4: bool) -> crate::Result<bool> {
+    match cur() {
+        Some(env) => env
+            .socket_open(is_v4)
+            .map(|_| true)
+            .map_err(|e| crate::Error::Msg(format!("socket open failed: {e}"))),
+        None => Ok(false),
+    }
+}
+
+/// Stands in for a `&PktInfoUdpSocket` on the send side.
+pub(crate) struct SockShim<'a>(pub(crate) &'a PktInfoUdpSocket);
+
+impl Deref for SockShim<'_> {
+    type Target = PktInfoUdpSocket;
+    fn deref(&self) -> &PktInfoUdpSocket {
+        self.0
+    }
+}
+
+impl SockShim<'_> {
+    fn is_v4(&self) -> bool {
+        self.0.domain() == socket2::Domain::IPV4
+    }
+
+    pub(crate) fn set_multicast_if_v4(&self, intf: &Ipv4Addr) -> io::Result<()> {
+        match cur() {
+            Some(env) => env.set_mcast_if_v4(intf),
+            None => self.0.set_multicast_if_v4(intf),
+        }
+    }
+
+    pub(crate) fn set_multicast_if_v6(&self, if_index: u32) -> io::Result<()> {
+        match cur() {
+            Some(env) => env.set_mcast_if_v6(if_index),
+            None => self.0.set_multicast_if_v6(if_index),
+        }
+    }
+
+    pub(crate) fn join_multicast_v4(&self, group: &Ipv4Addr, intf: &Ipv4Addr) -> io::Result<()> {
+        match cur() {
+            Some(env) => env.join_v4(group, intf),
+            None => self.0.join_multicast_v4(group, intf),
+        }
+    }
+
+    pub(crate) fn join_multicast_v6(&self, group: &Ipv6Addr, if_index: u32) -> io::Result<()> {
+        match cur() {
+            Some(env) => env.join_v6(group, if_index),
+            None => self.0.join_multicast_v6(group, if_index),
+        }
+    }
+
+    pub(crate) fn send_to(&self, buf: &[u8], addr: &SockAddr) -> io::Result<usize> {
+        match (cur(), addr.as_socket()) {
+            (Some(env), Some(dest)) => env.send_to(self.is_v4(), buf, dest),
+            _ => self.0.send_to(buf, addr),
+        }
+    }
+}
+
+/// Stands in for a `MyUdpSocket` on the receive side: `shim.pktinfo.recv(buf)`.
+pub(crate) struct RecvShim<'a> {
+    pub(crate) pktinfo: RecvInner<'a>,
+}
+
+pub(crate) struct RecvInner<'a>(&'a PktInfoUdpSocket);
+
+impl<'a> RecvShim<'a> {
+    pub(crate) fn new(sock: &'a PktInfoUdpSocket) -> Self {
+        Self {
+            pktinfo: RecvInner(sock),
+        }
+    }
+}
+
+impl RecvInner<'_> {
+    pub(crate) fn recv(&self, buf: &mut [u8]) -> io::Result<(usize, PktInfo)> {
+        match cur() {
+            Some(env) => env.recv(self.0.domain() == socket2::Domain::IPV4, buf),
+            None => self.0.recv(buf),
+        }
+    }
+}
+
+/// Function-local stand-in for the `if_addrs` crate.
+pub(crate) mod if_addrs {
+    pub(crate) fn get_if_addrs() -> std::io::Result<Vec<::if_addrs::Interface>> {
+        match super::cur() {
+            Some(env) => env.get_if_addrs(),
+            None => ::if_addrs::get_if_addrs(),
+        }
+    }
+}
+
+/// Function-local stand-in for the `fastrand` crate.
+pub(crate) mod fastrand {
+    pub(crate) fn u64(range: std::ops::Range<u64>) -> u64 {
+        match super::cur() {
+            Some(env) => env.rand_u64(range.start, range.end),
+            None => ::fastrand::u64(range),
+        }
+    }
+}
